@@ -361,6 +361,8 @@ type driver struct {
 	prev    uint64
 	stepN   int
 	ctx     context.Context
+
+	addDBCalls atomic.Int64
 }
 
 func newDriver(w *world, sk *sink, dir string) *driver {
@@ -490,6 +492,7 @@ type stepOpts struct {
 	sends     bool
 	claims    int // 0, 1, or 2 (second one = the delayed update of the previous epoch)
 	snapshots int
+	addDBs    int // AddDataBase calls for chains that are already served (another endpoint of the chain comes up / is retried)
 }
 
 // step: advance the epoch clock, then run senders, epoch updates and snapshots concurrently; join.
@@ -595,6 +598,22 @@ func (d *driver) step(rng *rand.Rand, o stepOpts) {
 			d.sk.emit(event{K: "snapret", ID: opID})
 		}(startAt)
 	}
+	for a := 0; a < o.addDBs; a++ {
+		startAt := int64(0)
+		if total > 0 {
+			startAt = rng.Int63n(total + 1)
+		}
+		spec := vrand.Pick(rng, d.w.Specs)
+		wg.Add(1)
+		go func(startAt int64, spec string) {
+			defer wg.Done()
+			after(startAt)
+			// SetupEndpoint calls this once per (chain, api interface) and again when a disabled endpoint is retried:
+			// for a chain whose reward DB is already open it must not touch the proofs held in memory
+			d.srv.AddDataBase(spec, d.w.provider, 0)
+			d.addDBCalls.Add(1)
+		}(startAt, spec)
+	}
 	wg.Wait()
 	d.sk.emit(event{K: "stepend", Step: d.stepN, Clock: d.clock})
 }
@@ -611,6 +630,7 @@ func (d *driver) randomStep(rng *rand.Rand, sends bool) {
 		o.claims = 2
 	}
 	o.snapshots = vrand.Weighted(rng, []int{35, 45, 20})
+	o.addDBs = vrand.Weighted(rng, []int{70, 24, 6})
 	d.step(rng, o)
 }
 
@@ -648,13 +668,13 @@ func (r *recorder) violation(rule, sig, desc string, witness any) {
 // ------------------------------------------------------------------ evaluation of one round
 
 type sendOp struct {
-	key        pkey
-	cu, rn     uint64
-	tcall      int64
-	tret       int64
-	ex         uint64
-	up         bool
-	failK      int
+	key    pkey
+	cu, rn uint64
+	tcall  int64
+	tret   int64
+	ex     uint64
+	up     bool
+	failK  int
 }
 type claimOp struct {
 	epoch       uint64
@@ -1216,6 +1236,7 @@ func runRound(rec *recorder, seed int64, round int, classes map[string]int) {
 	lt.events = sk.take()
 	rr.evalLifetime(lt)
 	d.srv.CloseAllDataBases()
+	classes["AddDataBase_calls_for_a_chain_already_served"] += int(d.addDBCalls.Load())
 
 	rec.Evals++
 	finishRound(rec, rr, classes, fmt.Sprintf("round %d", round))
@@ -1824,4 +1845,3 @@ func TestC29(t *testing.T) {
 		"payments are never confirmed (PaymentHandler is not called): the reward DB keeps claimed proofs, as it does until the payment event is seen",
 		"crash tier: linearizability is not checked for the incarnation that crashed (open operations)")
 }
-
